@@ -317,6 +317,11 @@ func demangleSingleFunction(fn *profile.Function, options []demangle.Option) {
 				name = removeMatching(name, '<', '>')
 			}
 		}
+		if name == "" {
+			// The whole name was in brackets (e.g. "<unknown>"): keep it
+			// rather than leave the function without a name.
+			name = fn.SystemName
+		}
 	}
 	fn.Name = name
 }
